@@ -255,27 +255,31 @@ SKIPPED = "skipped-time-budget"
 
 
 def _run_impl_batch(lines, timeout):
-    """Runs the real code on a batch. If the process dies (abort/stack overflow), continues after
-    the offending line; if it exceeds `timeout`, the rest of the batch is marked skipped."""
+    """Runs the real code on a batch. If the process dies (abort/stack overflow) or does not come back within
+    the per-attempt cap (a line that never terminates), the offending line is recorded (`abort` / `hang`) and
+    the run continues after it; when the overall `timeout` is used up the rest of the batch is marked skipped."""
     res = []
     rest = list(lines)
     t0 = time.time()
+    cap = float(os.environ.get("VERIF_BATCH_TIMEOUT", "300"))
     while rest:
         left = timeout - (time.time() - t0)
         if left <= 0:
             res.extend([SKIPPED] * len(rest))
             break
         try:
-            rc, out, err = run_lines(RUN, rest, timeout=left)
+            rc, out, err = run_lines(RUN, rest, timeout=min(left, max(cap, 0.5 * len(rest))))
         except subprocess.TimeoutExpired as e:
             got = (e.stdout or b"")
             got = got.decode() if isinstance(got, bytes) else got
             outl = got.split("\n")[:-1] if got else []
-            res.extend(outl[:len(rest)])
+            outl = outl[:len(rest)]
+            res.extend(outl)
             n = len(outl)
             if n < len(rest):
                 res.append("hang")          # the line being executed when time ran out
-                res.extend([SKIPPED] * (len(rest) - n - 1))
+                rest = rest[n + 1:]
+                continue
             break
         res.extend(out[:len(rest)])
         if rc == 0 and len(out) >= len(rest):
@@ -412,19 +416,41 @@ def load_findings():
     return json.load(open(p))
 
 
-def finding_for(prop, line, model_out, findings):
-    """An open finding suppresses a violation only when its key names this very case line
-    (`case:<line>`) or the defect site tag the model printed for it (`site:<tag>`)."""
+def findings_for(prop, line, model_out, findings):
+    """The open findings whose key names this very case line (`case:<line>`) or a defect site tag
+    the model printed for it (`site:<tag>`)."""
     tags = re.findall(r"#(D-[0-9a-z]+)", model_out)
+    res = []
     for f in findings.get("findings", []):
         if f.get("property") != prop or f.get("status", "open") != "open":
             continue
         k = f.get("key", "")
-        if k == "case:" + line:
-            return f
-        if k.startswith("site:") and k[5:] in tags:
-            return f
-    return None
+        if k == "case:" + line or (k.startswith("site:") and k[5:] in tags):
+            res.append(f)
+    return res
+
+
+def finding_for(prop, line, model_out, findings):
+    """An open finding suppresses a violation only when its key names this very case line
+    (`case:<line>`) or the defect site tag the model printed for it (`site:<tag>`)."""
+    fs = findings_for(prop, line, model_out, findings)
+    return fs[0] if fs else None
+
+
+def waiving_findings(prop, line, impl, model_out, spec, findings):
+    """The known findings that explain a specification mismatch of this case (empty list = it is a
+    failing input).  A finding is considered only if the model reproduces the implementation's answer
+    (tags aside) and names the finding (`findings_for`).  By default that suffices (suppression per
+    LINE).  A property may refine this with `finding_applies(line, impl, model, spec, finding)`
+    (suppression per OP: C20 waives a line only if every op whose answer mismatches the specification
+    carries, in the model's output, the site tag of a listed finding)."""
+    if untag(impl) != untag(model_out):
+        return []
+    fs = findings_for(prop.id, line, model_out, findings)
+    hook = getattr(prop, "finding_applies", None)
+    if hook is not None:
+        fs = [f for f in fs if hook(line, impl, model_out, spec, f)]
+    return fs
 
 
 # ------------------------------------------------------------------ corpus
@@ -615,6 +641,11 @@ def run_check(prop, tier, seed):
             lines = [lines[i] for i in kept]
             raw = [raw[i] for i in kept]
         impl = prop.project_all(lines, raw)
+        # a case on which the harness process died (`abort`: stack overflow, allocation failure, …) or did not
+        # come back within the time budget (`hang`) is never projected away: no model or specification says so
+        for i, r in enumerate(raw):
+            if r in ("hang", "abort"):
+                impl[i] = "process-" + r
         if ok_drv:
             model, spec = run_model(lines, nworkers)
         else:
@@ -645,31 +676,34 @@ def run_check(prop, tier, seed):
     # failing inputs: implementation against the specification
     reported = set()
     for i in spec_bad:
-        f = finding_for(prop.id, lines[i], model[i] if model else "", findings)
-        if f is not None and untag(impl[i]) == untag(model[i]):
-            key = f["key"]
-            if key not in reported:
-                reported.add(key)
-                known.append((f, lines[i]))
+        fs = waiving_findings(prop, lines[i], impl[i], model[i] if model else "", spec[i], findings)
+        if fs:
+            for f in fs:
+                if f["key"] not in reported:
+                    reported.add(f["key"])
+                    known.append((f, lines[i]))
             continue
         if len(violations) >= 5:
             continue
 
         def still(c):
+            # a smaller case must still fail AND still not be explained by a known finding (shrinking
+            # must not walk from an unexplained failure into a recorded one and so hide it)
             try:
                 im = prop.project_all([c], [run_impl([c])[0]])[0]
                 mo, sp = run_model([c])
-                return not spec_match(sp[0], im)
+                return not spec_match(sp[0], im) and not waiving_findings(prop, c, im, mo[0], sp[0], findings)
             except Exception:
                 return False
         small = shrink(prop, lines[i], still) if ok_drv else lines[i]
         im = prop.project_all([small], [run_impl([small])[0]])[0]
         mo, sp = (run_model([small]) if ok_drv else (["?"], ["?"]))
-        f2 = finding_for(prop.id, small, mo[0], findings)
-        if f2 is not None and untag(im) == untag(mo[0]):
-            if f2["key"] not in reported:
-                reported.add(f2["key"])
-                known.append((f2, small))
+        fs2 = waiving_findings(prop, small, im, mo[0], sp[0], findings)
+        if fs2:
+            for f2 in fs2:
+                if f2["key"] not in reported:
+                    reported.add(f2["key"])
+                    known.append((f2, small))
             continue
         p = write_replay(prop.id, "case%d" % len(violations), {
             "case": small, "original_case": lines[i], "impl": im, "model": mo[0], "spec": sp[0],
